@@ -219,6 +219,16 @@ fn plan_inner(prop: &str, tier: &str) -> Option<Plan> {
                         jobs.extend(sharded(prop, "gsweep", f, tier, json!({"n": n, "max_l": l, "val_range": vr, "interf": interf}), sh));
                     }
                 }
+                // C07 does not require constant node values: priority-first traversals whose closure
+                // raises (3) / lowers (4) the value of the node an edge leads to must still hand over every edge once
+                if prop == "C07" {
+                    for interf in 3..=4u8 {
+                        let ib: Vec<(usize, usize, usize)> = if tier == "quick" { vec![(3, 3, 8)] } else { vec![(3, 4, 16), (4, 3, 16)] };
+                        for (n, l, sh) in ib {
+                            jobs.extend(sharded(prop, "gsweep", f, tier, json!({"n": n, "max_l": l, "val_range": 0, "interf": interf}), sh));
+                        }
+                    }
+                }
                 // the same shapes reached from non-initial states: through histories with removals
                 // (mesh connected and disconnected / isolated first; a temporary edge around every connect)
                 for churn in 1..=3u8 {
